@@ -433,12 +433,22 @@ func inCalDateGrammar(s string) bool {
 
 var fractionalSecond = regexp.MustCompile(`[0-9]{2}:[0-9]{2}:[0-9]{2}[.,]`)
 
+// The three HTTP-date forms of RFC 7231 7.1.1.1, transcribed (day and month names are case-sensitive there: they
+// are given as octet sequences). The standard library's parser is consulted only for the RANGE of the fields
+// (a 32nd of November matches the shape but is no date); the shape is judged here, independently of time.Parse,
+// which tolerates one-digit fields and any letter case.
+var (
+	httpMon     = `(Jan|Feb|Mar|Apr|May|Jun|Jul|Aug|Sep|Oct|Nov|Dec)`
+	httpTOD     = `\d{2}:\d{2}:\d{2}`
+	imfFixdate  = regexp.MustCompile(`^(Mon|Tue|Wed|Thu|Fri|Sat|Sun), \d{2} ` + httpMon + ` \d{4} ` + httpTOD + ` GMT$`)
+	rfc850Date  = regexp.MustCompile(`^(Monday|Tuesday|Wednesday|Thursday|Friday|Saturday|Sunday), \d{2}-` + httpMon + `-\d{2} ` + httpTOD + ` GMT$`)
+	asctimeDate = regexp.MustCompile(`^(Mon|Tue|Wed|Thu|Fri|Sat|Sun) ` + httpMon + ` (\d{2}| \d) ` + httpTOD + ` \d{4}$`)
+)
+
 func inHTTPDateGrammar(s string) bool {
-	// none of the three forms has a fraction of a second (time.Parse would accept one)
-	if fractionalSecond.MatchString(s) {
+	if !imfFixdate.MatchString(s) && !rfc850Date.MatchString(s) && !asctimeDate.MatchString(s) {
 		return false
 	}
-	// IMF-fixdate only is produced; obsolete forms are legal too
 	for _, f := range []string{http.TimeFormat, time.RFC850, time.ANSIC} {
 		if _, err := time.Parse(f, s); err == nil {
 			return true
@@ -536,7 +546,10 @@ func c16Cases(full bool) []c16Case {
 	}
 	for _, s := range []string{"", "Sun, 06 Nov 1994 08:49:37 UTC", "Sun, 32 Nov 1994 08:49:37 GMT", "Sun, 06 Nov 1994 24:49:37 GMT", "Sun, 06 Nov 1994 08:60:37 GMT", "1994-11-06T08:49:37Z", "784111777", "Sun, 06 Foo 1994 08:49:37 GMT", "Sun, 06 Nov 1994 08:49:37 +0000", "Sun, 06 Nov 1994 08:49:37",
 		// a fraction of a second is in neither grammar
-		"Sun, 06 Nov 1994 08:49:37.5 GMT", "Sun, 06 Nov 1994 08:49:37,25 GMT", "Sun, 06 Nov 1994 08:49:37.000 GMT"} {
+		"Sun, 06 Nov 1994 08:49:37.5 GMT", "Sun, 06 Nov 1994 08:49:37,25 GMT", "Sun, 06 Nov 1994 08:49:37.000 GMT",
+		// shapes time.Parse tolerates: one-digit fields, other letter case
+		"Sun, 06 Nov 1994 8:49:37 GMT", "Sun, 6 Nov 1994 08:49:37 GMT", "Sun, 06 Nov 1994 08:9:37 GMT", "sun, 06 nov 1994 08:49:37 GMT", "SUN, 06 NOV 1994 08:49:37 GMT", "Sun, 06 Nov 1994 08:49:37 gmt",
+		"Sunday, 06-Nov-94 8:49:37 GMT", "sunday, 06-nov-94 08:49:37 GMT", "Sun Nov 6 08:49:37 1994", "sun nov  6 08:49:37 1994"} {
 		if !inHTTPDateGrammar(s) {
 			add("time", "reject", s, "")
 		}
@@ -645,9 +658,52 @@ func c16InputClass(c c16Case) string {
 			}
 			return "non-utc-zone"
 		}
+		if c.Prim == "time" {
+			// what is wrong with the text, so that distinct leniencies get distinct signatures
+			if c.In == "" {
+				return "empty"
+			}
+			// apply the three repairs in turn; if the result is in the grammar the class names those that changed the text
+			var feats []string
+			cur := c.In
+			for _, rp := range []struct {
+				name string
+				f    func(string) string
+			}{{"repeated-blank", func(x string) string {
+				if asctimeDate.MatchString(x) {
+					return x // the blank-padded day of the asctime form is part of the grammar
+				}
+				return strings.Join(strings.Fields(x), " ")
+			}}, {"one-digit-field", func(x string) string { return oneDigitField.ReplaceAllString(x, "${1}0${2}${3}") }}, {"letter-case", httpDateCase}} {
+				if n := rp.f(cur); n != cur {
+					feats = append(feats, rp.name)
+					cur = n
+				}
+			}
+			if len(feats) > 0 && inHTTPDateGrammar(cur) {
+				// one root cause (time.Parse tolerates these spellings), one class
+				return "in-grammar-after-repairing-blanks-digits-or-letter-case"
+			}
+		}
 		return "near-miss"
 	}
 	return "any"
+}
+
+// a time or day-of-month field written with one digit where the grammar wants two
+var oneDigitField = regexp.MustCompile(`(^|[ ,:-])(\d)([ :-]|$)`)
+
+// httpDateCase re-spells day names, month names and the zone in the letter case of the grammar.
+func httpDateCase(s string) string {
+	words := strings.FieldsFunc(s, func(r rune) bool { return !(r >= 'a' && r <= 'z' || r >= 'A' && r <= 'Z') })
+	for _, w := range words {
+		c := strings.ToUpper(w[:1]) + strings.ToLower(w[1:])
+		if strings.EqualFold(w, "GMT") {
+			c = "GMT"
+		}
+		s = strings.Replace(s, w, c, 1)
+	}
+	return s
 }
 
 func init() {
